@@ -510,8 +510,11 @@ def oracle(ctx, exe, hists, all_boundaries=True):
             if len(bl) != 1 + b + 3 + (n - b) + len(tail):
                 skipped += 1
                 continue
-            if parse_summary(split_line(o_state(b))[1]) is None:
-                skipped += 1        # original already poisoned here
+            so0 = parse_summary(split_line(o_state(b))[1])
+            if so0 is None or so0["nerr"] > 0:
+                # original poisoned, or halted by an unhandled story error (errors are deliberately not part
+                # of a save: C13) — not a point where a host saves
+                skipped += 1
                 continue
             npoints += 1
             dump_b = o_dump(b)
@@ -577,8 +580,17 @@ def correspondence(ctx, exe, hists, nmax):
         c.setdefault("want_json", True)
     impl = vlib.run_inkdrive(cases, exe)
     res = engine_save.compare(cases, exe=exe, shard=5, impl=impl)
+    if any(r["status"] == "model-error" for r in res):
+        # a concurrent rebuild of a shared .vo can make coqc refuse the scratch file: rebuild and retry once
+        ctx.build(["theories/Engine/RunSave.vo"])
+        res = engine_save.compare(cases, exe=exe, shard=5, impl=impl)
+        errs = [r.get("error", "") for r in res if r["status"] == "model-error"]
+        if errs and any("inconsistent assumptions" in e or "Compiled library" in e for e in errs):
+            # the Coq libraries on disk are being rebuilt by someone else: the check cannot run (exit 2),
+            # this says nothing about the property
+            raise RuntimeError("model libraries are inconsistent on disk (concurrent rebuild?): " + errs[0][-300:])
     # are the hypotheses of the round-trip theorems met on the states the histories reach? (model only)
-    nprobe = min(len(cases), 24 if ctx.quick() else 200)
+    nprobe = min(len(cases), 12 if ctx.quick() else 200)
     bits = {"states": 0, "wf_world_b": 0, "at_save_point": 0, "resave_hyp_b": 0, "no_alias_entry": 0}
     try:
         for tr in engine_save.wf_probe(cases[:nprobe], impl[:nprobe], shard=4):
@@ -620,8 +632,10 @@ def run(ctx):
         okb, logb = ctx.build(["theories/Engine/RunSave.vo"])
         if not okb:
             raise RuntimeError(logb[-800:])
-        cstat, mism, ncorr = correspondence(ctx, exe, hists, 60 if ctx.quick() else 600)
+        cstat, mism, ncorr = correspondence(ctx, exe, hists, 40 if ctx.quick() else 600)
     except RuntimeError as e:
+        if "inconsistent on disk" in str(e):
+            raise
         mism.append(dict(status="model-does-not-evaluate", error=str(e)[-600:]))
 
     ctx.coverage["timing_s"] = dict(histories=round(t1 - t0, 1), oracle=round(t2 - t1, 1),
